@@ -14,7 +14,7 @@ LEVEL_TEXT = ('fault enumeration: for every explored run every I/O event (open/w
               'and chunk configurations. Right level because the property quantifies over crash points and configurations.')
 LEVEL_NOTE = ('trusted: SimFile proxy = the OS (process death, page cache survives; no power loss), strict framing parser '
               'sim/rp66.py; bounds: files <= ~64 kB, <= 4 configurations per specification')
-TIERS = {'quick': {'cases': 1800, 'wall': 40}, 'thorough': {'cases': 400000, 'wall': 840}}
+TIERS = {'quick': {'cases': 1200, 'wall': 40}, 'thorough': {'cases': 400000, 'wall': 840}}
 RULE = ('case = seeded valid specification (1-3 logical files, frames, no-format data; record length biased to 32..256) '
         'written under 3-4 (input chunk, output chunk, prior content) configurations, each in its own fork, plus torn '
         'writes and a real crash+restart; every open/write/close event of every write is a checked crash point. '
@@ -28,6 +28,10 @@ def gen_case(rng, tier, avoid):
     n_lf = rng.choice([1, 1, 1, 2, 3])
     spec = gen.simple_file(rng, n_lf=n_lf, max_width=10)
     rows = gen.max_rows(spec)
+    ops, data = spec.ops, None
+    src = gen.pick(rng, ['inline', 'inline', 'inline', 'dict', 'h5', 'struct'])
+    if src != 'inline':
+        ops, data = gen.externalize(spec.ops, src, rng)       # the input chunks then come through the source wrappers / real HDF5 I/O
     ocs_pool = C.sym_ocs_choices(rng)
     ics_pool = gen.ics_choices(rng, rows)
     configs = []
@@ -46,7 +50,10 @@ def gen_case(rng, tier, avoid):
     params = {'configs': configs, 'torn': [[rng.random(), rng.random()] for _ in range(rng.choice([0, 1, 2]))]}
     if rng.random() < 0.3:
         params['crash'] = [rng.random(), rng.choice([None, None, rng.random()])]
-    return {'scenario': {'env': {'tz': 'UTC'}, 'history': spec.ops}, 'params': params}
+    if data:
+        params['data'] = data
+    params['source'] = src if not data else data['kind']
+    return {'scenario': {'env': {'tz': 'UTC'}, 'history': ops}, 'params': params}
 
 
 def _fp(cfg, rows, extra=None):
@@ -71,8 +78,14 @@ def check_case(case, ex):
 
     def wop(**kw):
         op = {'op': 'write', 'fid': fid, 'path': 'out.dlis'}
+        if P.get('data'):
+            op['data'] = P['data']
         op.update(kw)
         return op
+    bump(pr, 'source_' + str(P.get('source', 'inline')))
+    if P.get('data'):
+        # row count of externalised data
+        rows = max([rc['shape'][0] for _, rc in (P['data'].get('arrays') or P['data'].get('fields') or P['data'].get('datasets') or [])] or [rows])
 
     ref = ex(C.scenario_with(case, [wop(output_chunk_size=1 << 20)]))
     stats['execs'] += 1
